@@ -10,11 +10,13 @@ import (
 
 // Shared `expr` op of the expression-language properties:
 //
-//	expr <opt 0|1> <template hex (UTF-8 of []rune(template))> <elements hexlist> <keys hexlist k;v;…>
+//	expr <opt 0|1> <template hex (the raw bytes of the Go string, valid UTF-8 or not)> <elements hexlist> <keys hexlist k;v;…>
 //
 // answers `ok errs=<kind@index:ctxhex,…> val=<hex>`; panics are canonicalised to `panic`.
 
-// normTemplate re-encodes a template the way Go sees it when ranging over runes.
+// normTemplate re-encodes a template the way Go sees it when ranging over runes.  The shared `expr` op no
+// longer uses it (the model decodes the raw bytes itself, Rare.C09.decodeRunes); kept for ops that embed
+// templates in other fields.
 func normTemplate(s string) string { return string([]rune(s)) }
 
 func errKind(err error) string {
@@ -87,5 +89,5 @@ func ExprCase(opt bool, template string, elems []string, keys []string) string {
 	if opt {
 		o = "1"
 	}
-	return fmt.Sprintf("expr %s %s %s %s", o, HexS(normTemplate(template)), HexListS(elems), HexListS(keys))
+	return fmt.Sprintf("expr %s %s %s %s", o, HexS(template), HexListS(elems), HexListS(keys))
 }
